@@ -245,9 +245,16 @@ class _Skip(Exception):
 def to_native_value(v):
     from .vals import Err, Sym
     from . import api
-    from .interp import Obj, Closure, FuncRef
+    from .interp import Obj, Closure, FuncRef, TypeRef
     if isinstance(v, Err):
         return api.REAL['errors'][v.code]
+    if isinstance(v, TypeRef):
+        import datetime as _dt
+        m = {'int': int, 'float': float, 'bool': bool, 'str': str, 'complex': complex, 'NoneType': type(None), 'datetime': _dt.datetime,
+             'list': list, 'tuple': tuple, 'XLError': api.REAL['XLError']}
+        if v.name in m:
+            return m[v.name]
+        raise _Skip()
     if isinstance(v, list):
         return [to_native_value(x) for x in v]
     if isinstance(v, tuple):
